@@ -40,6 +40,7 @@ import (
 var sel = vfix.Selector(vfix.SubnetsTOML)
 
 func guard(e *venum.E, entry, id string, f func()) {
+	e.Sample(map[string]any{"entry": entry, "case": id})
 	if p, msg, site := venum.Guard(f); p {
 		e.Violation("panic:"+entry+":"+site, fmt.Sprintf("%s: %s (%s)", entry, msg, id), map[string]any{"entry": entry, "case": id})
 	}
